@@ -89,6 +89,9 @@ type Env struct {
 	infra     string
 
 	cleanup []func()
+	// BeforeCleanup, if set, receives the run's record before the cleanup
+	// functions run.
+	BeforeCleanup func(Record)
 }
 
 // NewEnv returns an Env drawing from a PRNG seeded by seed.
@@ -324,6 +327,11 @@ func (e *Env) result() Record {
 // property); a panic from harness code is infrastructure trouble.
 func Execute(e *Env, fn func(*Env)) (rec Record) {
 	defer func() {
+		if e.BeforeCleanup != nil {
+			// the outcome is fixed now; closing what the run opened can still
+			// get stuck on something the system under test left behind
+			e.BeforeCleanup(e.result())
+		}
 		for i := len(e.cleanup) - 1; i >= 0; i-- {
 			func() {
 				defer func() { recover() }()
